@@ -5,10 +5,10 @@ NTOK = 31
 CHUNK = 1000
 MAIN = r'for \(i = 1, opt = SPIF_CHARPTR\(argv\[1\]\); i < argc; \)'
 BOUNDS = {
-    'quick': {'argument words': '0..2 from a 31-token alphabet (every sequence), plus every 16th 3-word sequence',
+    'quick': {'argument words': '0..2 from a 31-token alphabet (every sequence), plus every 64th 3-word sequence',
               'table variants': '3 (no pre-parse options / v,str,exec,theme pre-parse / a,num,cc pre-parse with long-only str,exec,theme)',
               'settings': 'pre-parse x remove-args, all four (shape)', 'symbolic per query': 'three 32-bit masks (overlapping or not), two 64-bit flag words, integer targets'},
-    'thorough': {'argument words': '0..3 (every sequence)', 'table variants': '3', 'symbolic per query': 'as quick'},
+    'thorough': {'argument words': '0..2 (every sequence, all four settings), every 8th 3-word sequence (two settings each)', 'table variants': '3', 'symbolic per query': 'as quick'},
 }
 RULE = 'C08 shapes: (table variant, token sequence); the token alphabet is harness/c08_opts.c:tokens.'
 ASSUMPTIONS = ['the ideal reading is harness/c08_opts.c:ref_parse (written from the property statement and the documented value-discovery rules)',
@@ -34,11 +34,13 @@ def families(tier):
         obls = []
         for ln in range(0, 4):
             total = NTOK ** ln
-            step = 1 if ln < 3 else (32 if q else (2 if tv == 0 else 8))
+            step = 1 if ln < 3 else (64 if q else 8)
             for code in range(tv % step, total, step):
                 # settings: the four combinations of pass and argument removal (concrete, see the harness)
                 for k, (st, sn) in enumerate(((0, 'normal'), (2, 'normal+remove'), (1, 'preparse'), (3, 'preparse+remove'))):
-                    if (tv == 0 and ln < 3) or not q or (code // step + tv) % 4 == k:
+                    # quick: all four settings for 0-1 words, one of the four (rotating) beyond; thorough: all four up to
+                    # 2 words, two of the four (rotating) for the sampled 3-word sequences
+                    if ln < 2 or (not q and ln == 2) or (code // step + tv) % 4 == k or (not q and (code // step + tv + 2) % 4 == k):
                         obls.append(('C08/parse/tv=%d,len=%d,code=%d,pass=%s' % (tv, ln, code, sn), tv, ln, code, st))
         # one goto binary holds at most CHUNK entry functions (program loading time grows with their number)
         for c in range(0, len(obls), CHUNK):
